@@ -2,19 +2,32 @@ SPEC = dict(
     claimed=True,
     title='Measured fan limits follow the RPM curve; configured limits always win',
     props_file='Props/C13.v', props_mod='Props.C13',
-    proof_files=['Proofs/Limits.v', 'Drv/Limits.v', 'Proofs/LimitsBridge.v'],
+    proof_files=['Proofs/Limits.v', 'Drv/Limits.v', 'Proofs/LimitsBridge.v', 'Drv/LimitsRun.v'],
     tie_vo=['Proofs/LimitsBridge.vo', 'Proofs/LeafTie2_ComputePwmBoundaries.vo', 'Proofs/LeafTie2_HwMonGetMinPwm.vo', 'Proofs/LeafTie2_HwMonGetStartPwm.vo', 'Proofs/LeafTie2_HwMonGetMaxPwm.vo', 'Proofs/LeafTie2_HwMonSetMinPwm.vo', 'Proofs/LeafTie2_HwMonSetStartPwm.vo', 'Proofs/LeafTie2_HwMonSetMaxPwm.vo'],
     drivers=[dict(name='limits', drv_mod='Drv.Limits', drv_file='Drv/Limits.v', shard=150,
                   args={'quick': ['n=900'], 'thorough': ['n=30000']},
-                  timeout={'quick': 600, 'thorough': 3000})],
+                  timeout={'quick': 600, 'thorough': 3000}),
+             # the limits a fan is REALLY started with: real DefaultFanController.Run, real bbolt persistence holding a stored
+             # RPM curve (or nothing: placeholder / initialization sequence), real HwMonFan on temp files
+             dict(name='limitsrun', drv_mod='Drv.LimitsRun', drv_file='Drv/LimitsRun.v', shard=40,
+                  args={'quick': [], 'thorough': ['reps=8']}, timeout={'quick': 600, 'thorough': 3000})],
     rule='real fans.NewFan (hwmon, file, cmd) + AttachFanRpmCurveData/SetMinPwm/SetStartPwm/SetMaxPwm; after every call the '
          'returned error and GetMinPwm/GetStartPwm/GetMaxPwm are observed. Structured part: all 8 combinations of configured '
          'minPwm/startPwm/maxPwm x neverStop x 12 curve families (ramp, capped, non-monotone, plateaus, all-zero, single point, '
          'fractional RPM 0.4/0.9/1.5, first non-zero at key 255, never stopping, NaN/Inf/negative/huge values, keys outside 0..255, '
          'several maxima) x {single attach, re-attach of a different family, then empty map, then nil}. Random part: 0..2 setter calls, '
-         '1..3 attachments (sparse 1..24 keys or dense 256 keys; 1/7 empty or nil) with 0..2 setter calls in between; setters are '
+         '1..3 attachments (sparse 1..24 keys or dense 256 keys; 1/7 empty or nil) with 0..2 setter calls in between (and, in a third of '
+         'the cases, UpdateFanRpmCurveValue calls, the caller changing a map it handed over, attaching the same map object again, '
+         'attaching the fan\'s OWN current map); aliasing part: 8 configurations x neverStop x 9 patterns (own map after updates, same '
+         'object twice, caller mutates then re-attaches, older object then own, own without/before any attach, caller empties the map, '
+         '...); the Coq case carries the content of the map AT CALL TIME. setters are '
          'non-forced except in 1/6 of the cases (config-wins is then not judged). Non-trivial = hwmon fan with at least one '
-         'non-empty attachment; distinct = distinct case terms.',
+         'non-empty attachment; distinct = distinct case terms. Driver limitsrun: DefaultFanController.Run on a real HwMonFan (temp files) '
+         'with real bbolt persistence: stored curve (dense ramp, 25-step sparse, random sparse, capped, placeholder-like, all-zero, '
+         'fractional) x 8 configurations (values that also contradict the curve: maxPwm below measured start, startPwm above measured '
+         'max, minPwm above startPwm) x neverStop, identity or coarse PWM map; nothing stored + minPwm/maxPwm (placeholder); nothing '
+         'stored (initialization sequence on a simulated coarse device). Observed when the first control cycle starts: the three getters; '
+         'then the request of every control cycle. Expected: model boundaries of the STORED curve, requests = rescaled curve value.',
     assumptions=['curve data reaches ComputePwmBoundaries through sort.Ints over the map keys: the model takes the key-sorted association list (distinct keys)',
                  'int(rpm) is the amd64 conversion (NaN, +-Inf, |x| >= 2^63 -> -2^63, i.e. "not spinning"); theorems are stated over whole r = f2i r for ALL float64 values',
                  'C13_start needs every key <= 255 (PWM values); C13_max needs no range assumption',
